@@ -324,10 +324,13 @@ Eval(e, env) ==
             LET u == Unescape(e.src, 1, <<>>) IN
             R(IF u.ok THEN StrV(u.cps, "utf8") ELSE ErrV, env)
       [] e.k = "var" ->
-            LET ctx == CtxOf(env) IN
-            IF e.lvl > Len(ctx) THEN R(ErrV, env)
+            \* "simple" evaluation (pre-pass: constants and #if conditions): global
+            \* context only, anything not yet known is Unknown instead of an error
+            LET ctx == CtxOf(env)
+                missing == IF "#simple" \in DOMAIN env THEN UnknownV ELSE ErrV IN
+            IF e.lvl > Len(ctx) THEN R(missing, env)
             ELSE LET key == JoinDots(SubSeq(ctx, 1, e.lvl) \o e.path) IN
-                 R(IF key \in DOMAIN env THEN env[key] ELSE ErrV, env)
+                 R(IF key \in DOMAIN env THEN env[key] ELSE missing, env)
       [] e.k = "un" ->
             LET x == Eval(e.e, env) IN
             IF Propagates(x.v) THEN x ELSE R(Unary(e.op, x.v), x.env)
